@@ -290,19 +290,44 @@ where
         let want_pairs: Vec<(usize, (u8, u128))> = data.iter().enumerate().filter(|(_, d)| !d.is_missing()).map(|(i, d)| (i, d.bits())).collect();
         ensure!(pairs == want_pairs, "wrong-value", "indexed_fold_skipnan saw (flat index, value) pairs {:?}, expected {:?}", pairs, want_pairs);
         // per-axis fold
-        let folded = v.fold_axis_skipnan(Axis(c.axis), Vec::<(u8, u128)>::new(), |acc, nn| {
-            let mut a = acc.clone();
-            a.push(T::from_not_nan_ref_opt(Some(nn)).bits());
-            a
-        });
         let mut want_shape = c.shape.clone();
         want_shape.remove(c.axis);
-        ensure!(folded.shape() == &want_shape[..], "shape", "fold_axis_skipnan result has shape {:?}, expected {:?}", folded.shape(), want_shape);
-        for (l, (got, idx)) in folded.iter().zip(&lanes_idx).enumerate() {
-            let mut g = got.clone();
-            g.sort_unstable();
-            let w = multiset(idx.iter().filter(|&&i| !data[i].is_missing()).map(|&i| data[i].clone()));
-            ensure!(g == w, "wrong-value", "fold_axis_skipnan lane {} saw {:?}, the lane's non-missing data is {:?}", l, g, w);
+        if n <= 64 {
+            let folded = v.fold_axis_skipnan(Axis(c.axis), Vec::<(u8, u128)>::new(), |acc, nn| {
+                let mut a = acc.clone();
+                a.push(T::from_not_nan_ref_opt(Some(nn)).bits());
+                a
+            });
+            ensure!(folded.shape() == &want_shape[..], "shape", "fold_axis_skipnan result has shape {:?}, expected {:?}", folded.shape(), want_shape);
+            for (l, (got, idx)) in folded.iter().zip(&lanes_idx).enumerate() {
+                let mut g = got.clone();
+                g.sort_unstable();
+                let w = multiset(idx.iter().filter(|&&i| !data[i].is_missing()).map(|&i| data[i].clone()));
+                ensure!(g == w, "wrong-value", "fold_axis_skipnan lane {} saw {:?}, the lane's non-missing data is {:?}", l, g, w);
+            }
+        } else {
+            // long lanes: an order-independent digest (count, sum and sum of squares of a mixed
+            // hash of each element) instead of a cloned vector per step
+            fn mix(b: (u8, u128)) -> u64 {
+                let mut z = (b.1 as u64) ^ ((b.1 >> 64) as u64).rotate_left(29) ^ ((b.0 as u64) << 56);
+                z = z.wrapping_add(0x9e37_79b9_7f4a_7c15);
+                z = (z ^ (z >> 30)).wrapping_mul(0xbf58_476d_1ce4_e5b9);
+                z = (z ^ (z >> 27)).wrapping_mul(0x94d0_49bb_1331_11eb);
+                z ^ (z >> 31)
+            }
+            let step = |acc: &(u64, u64, u64), b: (u8, u128)| {
+                let h = mix(b);
+                (acc.0 + 1, acc.1.wrapping_add(h), acc.2.wrapping_add(h.wrapping_mul(h)))
+            };
+            let folded = v.fold_axis_skipnan(Axis(c.axis), (0u64, 0u64, 0u64), |acc, nn| step(acc, T::from_not_nan_ref_opt(Some(nn)).bits()));
+            ensure!(folded.shape() == &want_shape[..], "shape", "fold_axis_skipnan result has shape {:?}, expected {:?}", folded.shape(), want_shape);
+            for (l, (got, idx)) in folded.iter().zip(&lanes_idx).enumerate() {
+                let mut w = (0u64, 0u64, 0u64);
+                for &i in idx.iter().filter(|&&i| !data[i].is_missing()) {
+                    w = step(&w, data[i].bits());
+                }
+                ensure!(*got == w, "wrong-value", "fold_axis_skipnan lane {} visited {} elements with digest ({:x}, {:x}); the lane's {} non-missing elements have digest ({:x}, {:x})", l, got.0, got.1, got.2, w.0, w.1, w.2);
+            }
         }
     }
     // --- per-lane map (mutating): closure records what it is given
@@ -408,6 +433,7 @@ where
         .class_if(n_missing == 0, "mask:none")
         .class_if(n_missing == total && total > 0, "mask:all")
         .class_if(!contiguous_axis, "axis:non-contiguous")
+        .class_if(n >= 512, "lane>=512")
         .class_if(matches!(c.ty, SkipTy::F32 | SkipTy::F64), "type:float")
         .class_if(!matches!(c.ty, SkipTy::F32 | SkipTy::F64), "type:option"))
 }
@@ -449,6 +475,255 @@ pub fn skip_strategy(max_lane: usize) -> impl Strategy<Value = SkipCase> {
             }
             SkipCase { ty, shape, layout, axis, vals, mask, q, strat, pivots }
         })
+}
+
+/// Long lanes for the skip-NaN routines: missing values confined to the tail / head of a
+/// lane, long runs of missing values next to a present end element, sparse / dense masks.
+pub fn skip_long_strategy(max_lane: usize) -> impl Strategy<Value = SkipCase> {
+    (proptest::sample::select(SKIP_TYPES.to_vec()), crate::gen::long_len(300, max_lane), 1usize..=3, 0usize..3, any::<u64>(), 0u8..10, any::<u16>())
+        .prop_flat_map(|(ty, lane, others, place, seed, class, k)| {
+            let (shape, axis) = match place {
+                0 => (vec![lane], 0),
+                1 => (vec![lane, others], 0),
+                _ => (vec![others, lane], 1),
+            };
+            let total: usize = shape.iter().product();
+            let mut next = crate::gen::splitmix(seed);
+            let vals: Vec<i16> = (0..total)
+                .map(|_| match class % 3 {
+                    0 => (next() % 4) as i16,
+                    1 => (next() % 200) as i16 - 100,
+                    _ => next() as i16,
+                })
+                .collect();
+            let mut mask = vec![false; total];
+            let k = k as usize;
+            for (l, idx) in lane_indexes(&shape, axis).iter().enumerate() {
+                let n = idx.len();
+                // the lanes of one array get neighbouring classes
+                match (class as usize + l) % 10 {
+                    0 => {
+                        let t = 1 + k % 130;
+                        for i in n - t.min(n)..n {
+                            mask[idx[i]] = true;
+                        }
+                    }
+                    1 => {
+                        let t = 1 + k % 130;
+                        for i in 0..t.min(n) {
+                            mask[idx[i]] = true;
+                        }
+                    }
+                    2 => {
+                        let r = (500 + k % 700).min(n - 1);
+                        for i in n - 1 - r..n - 1 {
+                            mask[idx[i]] = true;
+                        }
+                    }
+                    3 => {
+                        let r = (500 + k % 700).min(n - 1);
+                        for i in 1..=r {
+                            mask[idx[i]] = true;
+                        }
+                    }
+                    4 => {
+                        for i in 0..n {
+                            mask[idx[i]] = true;
+                        }
+                        mask[idx[if k % 2 == 0 { n - 1 } else { k % n }]] = false;
+                    }
+                    5 => mask[idx[k % n]] = true,
+                    6 => {
+                        for i in 0..n {
+                            mask[idx[i]] = next() % 10 == 0;
+                        }
+                    }
+                    7 => {
+                        for i in 0..n {
+                            mask[idx[i]] = next() % 10 != 0;
+                        }
+                    }
+                    8 => {}
+                    _ => {
+                        let t = 1 + (k * n >> 16);
+                        for i in n - t.min(n)..n {
+                            mask[idx[i]] = true;
+                        }
+                    }
+                }
+            }
+            let nd = shape.len();
+            (Just((ty, shape, axis, vals, mask)), layout_strategy(nd), qspec_strategy(), strat_strategy(), pivots_strategy())
+        })
+        .prop_map(|((ty, shape, axis, vals, mask), layout, q, strat, pivots)| SkipCase { ty, shape, layout, axis, vals, mask, q, strat, pivots })
+}
+
+// ---------------------------------------------------------------------------------------
+// C14 on 128-bit options: differential against the plain quantile of the filtered lane
+// (the property's own statement; the quantile oracle's value model stops at 64 bits)
+
+#[derive(Clone, Debug, Serialize, Deserialize, Hash)]
+pub struct SkipWideCase {
+    pub unsigned: bool,
+    pub shape: Vec<usize>,
+    pub layout: LayoutSpec,
+    pub axis: usize,
+    /// logical row-major values (u128 values are stored as their i128 bit pattern)
+    pub vals: Vec<i128>,
+    pub mask: Vec<bool>,
+    pub q: QSpec,
+    pub strat: Strat,
+    pub pivots: Pivots,
+}
+
+fn plain_quant_wide<A>(lane: Vec<A>, q: f64, strat: Strat) -> Result<Result<A, ndarray_stats::errors::QuantileError>, String>
+where
+    A: Ord + Clone + num_traits::NumOps + num_traits::FromPrimitive + num_traits::ToPrimitive + std::panic::UnwindSafe,
+{
+    let mut a = ndarray::Array1::from(lane);
+    let qn = N64::unchecked_new(q);
+    catch(move || {
+        let r = match strat {
+            Strat::Lower => a.quantile_axis_mut(Axis(0), qn, &Lower),
+            Strat::Higher => a.quantile_axis_mut(Axis(0), qn, &Higher),
+            Strat::Nearest => a.quantile_axis_mut(Axis(0), qn, &Nearest),
+            Strat::Midpoint => a.quantile_axis_mut(Axis(0), qn, &Midpoint),
+            Strat::Linear => a.quantile_axis_mut(Axis(0), qn, &Linear),
+        };
+        r.map(|x| x.into_scalar())
+    })
+}
+
+fn skip_quant_wide<A>(v: ndarray::ArrayViewMutD<'_, Option<A>>, axis: usize, q: f64, strat: Strat) -> Result<ArrayD<Option<A>>, ndarray_stats::errors::QuantileError>
+where
+    A: Ord + Clone + num_traits::NumOps + num_traits::FromPrimitive + num_traits::ToPrimitive + Copy,
+    Option<A>: MaybeNan,
+    <Option<A> as MaybeNan>::NotNan: Ord + Clone + num_traits::NumOps + num_traits::FromPrimitive + num_traits::ToPrimitive,
+{
+    let mut v = v;
+    let qn = N64::unchecked_new(q);
+    match strat {
+        Strat::Lower => v.quantile_axis_skipnan_mut(Axis(axis), qn, &Lower),
+        Strat::Higher => v.quantile_axis_skipnan_mut(Axis(axis), qn, &Higher),
+        Strat::Nearest => v.quantile_axis_skipnan_mut(Axis(axis), qn, &Nearest),
+        Strat::Midpoint => v.quantile_axis_skipnan_mut(Axis(axis), qn, &Midpoint),
+        Strat::Linear => v.quantile_axis_skipnan_mut(Axis(axis), qn, &Linear),
+    }
+}
+
+macro_rules! skip_wide_impl {
+    ($name:ident, $t:ty) => {
+        fn $name(c: &SkipWideCase) -> CheckResult {
+            let total: usize = c.shape.iter().product();
+            if c.vals.len() != total || c.mask.len() != total || c.axis >= c.shape.len() || c.shape[c.axis] == 0 {
+                return Ok(Info::discarded());
+            }
+            let n = c.shape[c.axis];
+            let q = c.q.resolve(n);
+            let data: Vec<Option<$t>> = c.vals.iter().zip(&c.mask).map(|(&v, &m)| if m { None } else { Some(v as $t) }).collect();
+            let lanes_idx = lane_indexes(&c.shape, c.axis);
+            // the plain operation on each lane with the missing values deleted
+            let mut want: Vec<Option<Result<$t, String>>> = vec![];
+            for idx in &lanes_idx {
+                let lane: Vec<$t> = idx.iter().filter_map(|&i| data[i]).collect();
+                if lane.is_empty() {
+                    want.push(None);
+                    continue;
+                }
+                c.pivots.install();
+                let r = plain_quant_wide::<$t>(lane, q, c.strat);
+                Pivots::uninstall();
+                match r {
+                    Ok(Ok(x)) => want.push(Some(Ok(x))),
+                    Ok(Err(e)) => fail!("error-kind", "plain quantile of a non-empty filtered lane returned Err({:?})", e),
+                    Err(p) => want.push(Some(Err(p))),
+                }
+            }
+            let plain_panics = want.iter().any(|w| matches!(w, Some(Err(_))));
+            let mut laid = Laid::new(&c.layout, &c.shape, &data);
+            c.pivots.install();
+            let r = {
+                let vm = laid.view_mut();
+                catch(|| skip_quant_wide::<$t>(vm, c.axis, q, c.strat))
+            };
+            Pivots::uninstall();
+            let res = match r {
+                Err(p) => {
+                    if plain_panics {
+                        // the plain operation itself does not produce a value here: nothing to compare
+                        return Ok(Info::excluded());
+                    }
+                    fail!("panic", "quantile_axis_skipnan_mut on Option<{}> panicked: {} although the plain quantile of every filtered lane returns a value (q {:e}, {:?}, shape {:?}, axis {})", stringify!($t), p, q, c.strat, c.shape, c.axis)
+                }
+                Ok(Err(e)) => fail!("error-kind", "quantile_axis_skipnan_mut returned Err({:?}) for a non-empty axis and q = {:e}", e, q),
+                Ok(Ok(a)) => a,
+            };
+            let mut want_shape = c.shape.clone();
+            want_shape.remove(c.axis);
+            ensure!(res.shape() == &want_shape[..], "shape", "quantile_axis_skipnan_mut result has shape {:?}, expected {:?}", res.shape(), want_shape);
+            for (l, (got, w)) in res.iter().zip(&want).enumerate() {
+                match w {
+                    None => ensure!(got.is_none(), "wrong-value", "lane {} has no non-missing element but its skip-NaN quantile is {:?}", l, got),
+                    Some(Ok(x)) => ensure!(*got == Some(*x), "wrong-value", "{:?} skip-NaN quantile q={:e} of lane {} is {:?}, the plain quantile of the lane without its missing values is {} (shape {:?}, axis {})", c.strat, q, l, got, x, c.shape, c.axis),
+                    Some(Err(p)) => fail!("wrong-value", "lane {}: the plain quantile of the filtered lane panics ({}), the skip-NaN form returned {:?}", l, p, got),
+                }
+            }
+            let after = laid.logical();
+            if let Err(e) = lanes_preserved(&data, &after, &c.shape, c.axis) {
+                fail!("multiset", "quantile_axis_skipnan_mut: {}", e);
+            }
+            if let Err(e) = laid.guards_intact() {
+                fail!("guard", "quantile_axis_skipnan_mut: {}", e);
+            }
+            let n_missing = c.mask.iter().filter(|m| **m).count();
+            let big = c.vals.iter().zip(&c.mask).any(|(&v, &m)| !m && ((v as $t) as f64).abs() >= 18446744073709551616.0);
+            Ok(Info::new(n_missing > 0 && n_missing < total && n >= 3)
+                .class(c.strat.class())
+                .class(if c.unsigned { "type:Option<u128>" } else { "type:Option<i128>" })
+                .class_if(big, "values-beyond-64-bits"))
+        }
+    };
+}
+skip_wide_impl!(check_skip_wide_i, i128);
+skip_wide_impl!(check_skip_wide_u, u128);
+
+pub fn check_skip_wide(c: &SkipWideCase) -> CheckResult {
+    if c.unsigned {
+        check_skip_wide_u(c)
+    } else {
+        check_skip_wide_i(c)
+    }
+}
+
+pub fn skip_wide_strategy() -> impl Strategy<Value = SkipWideCase> {
+    (any::<bool>(), 1usize..=2)
+        .prop_flat_map(|(unsigned, nd)| (Just(unsigned), shape_strategy_local(nd, if nd == 1 { 40 } else { 8 }, 120), 0..nd, layout_strategy(nd)))
+        .prop_flat_map(|(unsigned, shape, axis, layout)| {
+            let total: usize = shape.iter().product();
+            // magnitudes below 2^120: differences and midpoints stay inside the type
+            let val = move |(class, m, e, neg): (u8, u64, u32, bool)| -> i128 {
+                let x: i128 = match class % 4 {
+                    0 => (m % 7) as i128,
+                    1 => m as i128,
+                    2 => (m as i128) << (e % 56),
+                    _ => ((m | 1 << 63) as i128) << (e % 56),
+                };
+                if neg && !unsigned {
+                    -x
+                } else {
+                    x
+                }
+            };
+            (
+                Just((unsigned, shape, axis, layout)),
+                proptest::collection::vec((any::<u8>(), any::<u64>(), any::<u32>(), any::<bool>()).prop_map(val), total),
+                proptest::collection::vec(proptest::bool::weighted(0.3), total),
+                qspec_strategy(),
+                strat_strategy(),
+                pivots_strategy(),
+            )
+        })
+        .prop_map(|((unsigned, shape, axis, layout), vals, mask, q, strat, pivots)| SkipWideCase { unsigned, shape, layout, axis, vals, mask, q, strat, pivots })
 }
 
 fn shape_strategy_local(nd: usize, max_axis: usize, max_total: usize) -> BoxedStrategy<Vec<usize>> {
@@ -711,6 +986,8 @@ fn shared_strategy() -> impl Strategy<Value = SharedCase> {
 pub fn run_c14(ctx: &Ctx) {
     let t = ctx.tier();
     ctx.run_proptest("skip", t.pick(40_000, 1_000_000), skip_strategy(t.pick(40, 200)), &check_skip);
+    ctx.run_proptest("skip-wide", t.pick(10_000, 300_000), skip_wide_strategy(), &check_skip_wide);
+    ctx.run_proptest("skip-long", t.pick(1_000, 30_000), skip_long_strategy(t.pick(2_500, 4_000)), &check_skip);
 }
 
 pub fn run_c03(ctx: &Ctx) {
@@ -723,10 +1000,20 @@ pub fn run_c03(ctx: &Ctx) {
     ctx.run_proptest("select", t.pick(10_000, 200_000), sel::sel_strategy(t.pick(40, 200), 0), &c03_select);
     ctx.run_proptest("bulk", t.pick(10_000, 200_000), sel::bulk_strategy(t.pick(40, 200), 0), &c03_bulk);
     ctx.run_proptest("shared", t.pick(15_000, 300_000), shared_strategy(), &check_shared);
+    // long lanes / long request lists
+    ctx.run_proptest("quant-long", t.pick(600, 20_000), crate::props::quant::qcase_long_strategy(t.pick(2_500, 5_000), true), &c03_quant);
+    ctx.run_proptest("skip-long", t.pick(600, 20_000), skip_long_strategy(t.pick(2_500, 4_000)), &c03_skip);
+    ctx.run_proptest("remove-long", t.pick(1_000, 30_000), remove_long_strategy(t.pick(6_000, 10_000)), &c03_remove);
+    ctx.run_proptest("select-long", t.pick(800, 24_000), sel::sel_long_strategy(t.pick(5_000, 9_000)), &c03_select);
+    ctx.run_proptest("bulk-long", t.pick(1_000, 30_000), sel::bulk_long_strategy(t.pick(5_000, 9_000)), &c03_bulk);
 }
 
 pub fn replayers_c14() -> Vec<(&'static str, ReplayFn)> {
-    vec![("skip", |v| replay_with::<SkipCase>(v, &check_skip))]
+    vec![
+        ("skip", |v| replay_with::<SkipCase>(v, &check_skip)),
+        ("skip-long", |v| replay_with::<SkipCase>(v, &check_skip)),
+        ("skip-wide", |v| replay_with::<SkipWideCase>(v, &check_skip_wide)),
+    ]
 }
 
 pub fn replayers_c03() -> Vec<(&'static str, ReplayFn)> {
@@ -739,5 +1026,10 @@ pub fn replayers_c03() -> Vec<(&'static str, ReplayFn)> {
         ("select", |v| replay_with::<sel::SelCase>(v, &c03_select)),
         ("bulk", |v| replay_with::<sel::BulkCase>(v, &c03_bulk)),
         ("shared", |v| replay_with::<SharedCase>(v, &check_shared)),
+        ("quant-long", |v| replay_with::<QCase>(v, &c03_quant)),
+        ("skip-long", |v| replay_with::<SkipCase>(v, &c03_skip)),
+        ("remove-long", |v| replay_with::<RemoveCase>(v, &c03_remove)),
+        ("select-long", |v| replay_with::<sel::SelCase>(v, &c03_select)),
+        ("bulk-long", |v| replay_with::<sel::BulkCase>(v, &c03_bulk)),
     ]
 }
